@@ -44,9 +44,11 @@ MANIFEST = dict(
          "(no_guarded_append_decides_file), config.write_version is read only by util.write_output_file and main.dump_jsonfile "
          "(write_version_read_only_for_header; the header line is a comment by Shroud.Lines.wof_header_then_body, Props/C13.lean). "
          "Translation validation: for corpus, generated and feature libraries (overload sets with all cpp_if patterns, "
-         "fortran_generic, default-argument generics, classes with cpp_if / base classes, structs, scopes that hold no code, "
+         "fortran_generic, default-argument generics, classes with cpp_if / base classes / overloaded methods without cpp_if, structs, "
+         "scopes that hold no code, functions sharing one free_pattern destructor, same-named callback methods in different classes, "
          "doxygen blocks, user splicers for harvested block names) and on/off combinations of the options set globally and on "
-         "individual declarations (alone, in pairs, on the first/middle/last member of overload sets) the real outputs are "
+         "individual declarations (alone, in pairs, on every / the first / the last class, on the first/middle/last member of overload "
+         "sets and of same-named functions in different scopes) the real outputs are "
          "produced, the file sets must agree and each differing C/C++/Fortran source pair (C, C++, Python-extension and Lua "
          "wrappers are C/C++ sources) is judged by the compiled Lean checker. setup.py, *_types.yaml and the .json/.log run logs "
          "take part in the file-set comparison only: the property demands token identity for the sources.",
@@ -421,6 +423,14 @@ def decl_variants(doc, thorough, r):
         if r.random() < 0.5:
             mix[p] = {o: True for o in ("debug", "debug_index", "doxygen", "literalinclude") if r.random() < 0.5}
     res.append(("decl-mix", mix))
+    # the option on every class / on the first / on the last class only
+    cls = class_paths(doc)
+    if cls:
+        for opt in ("literalinclude", "debug", "doxygen"):
+            res.append(("decl-class-all-%s" % opt, {p: {opt: True} for p in cls}))
+            if len(cls) > 1:
+                res.append(("decl-class-first-%s" % opt, {cls[0]: {opt: True}}))
+                res.append(("decl-class-last-%s" % opt, {cls[-1]: {opt: True}}))
     # the option on one specific member (first / middle / last) of every overload set
     sets = overload_sets(doc)
     if sets:
@@ -450,7 +460,20 @@ def overload_sets(doc):
         m = _FNAME.search(t)
         if m:
             groups.setdefault((p[:-1], m.group(1)), []).append(p)
-    return [g for g in groups.values() if len(g) > 1]
+    sets = [g for g in groups.values() if len(g) > 1]
+    # functions of the same name in different scopes (they can share generated entities: generic names,
+    # abstract interfaces of their callback arguments)
+    byname = {}
+    for (scope, nm), g in groups.items():
+        byname.setdefault(nm, []).extend(g)
+    for nm, g in byname.items():
+        if len(g) > 1 and len({p[:-1] for p in g}) > 1 and sorted(g) not in [sorted(x) for x in sets]:
+            sets.append(sorted(g))
+    return sets
+
+
+def class_paths(doc):
+    return [p for p, d in walk_decls(doc.get("declarations")) if d["decl"].strip().split(" ")[0] in ("class", "struct")]
 
 
 def apply_decl_edits(doc, edits, base_off=True):
@@ -665,6 +688,32 @@ def gen_feature_lib(r, name, idx=0):
             decls.append({"decl": "namespace outer%d" % k, "declarations": [
                 {"decl": "int real%d(const std::string &s)" % k},
                 {"decl": "namespace inner", "options": {"C_extern_C": True}, "declarations": scal}]})
+    # a class whose overloaded methods carry no cpp_if (one type-bound generic statement for all of them)
+    kname = "Counter%d" % r.randrange(9)
+    k = {"decl": "class " + kname, "declarations": [
+        {"decl": kname + "()"}, {"decl": "~%s()" % kname}, {"decl": "void add(int n)"}, {"decl": "void add(double x)"}]
+        + ([{"decl": "void add(int n, int times)"}] if r.random() < 0.6 else []) + [{"decl": "int total() const"}]}
+    FEATURES["class-plain-overloaded-methods"] += 1
+    decls.append(k)
+    # functions that release memory through one shared free_pattern (their destructors are merged by name)
+    patterns = {}
+    if r.random() < 0.8:
+        nshare = r.choice([2, 2, 3])
+        patterns["free_shared"] = "release_shared(ptr);\n"
+        for j in range(nshare):
+            decls.append({"decl": "char *getShared%d() +free_pattern(free_shared)+owner(caller)" % j})
+        if r.random() < 0.5:
+            patterns["free_other"] = "release_other(ptr);\n"
+            decls.append({"decl": "char *getOther() +free_pattern(free_other)+owner(caller)"})
+        decls.append({"decl": "int *getValues(int *n +intent(out)) +dimension(n)+owner(caller)"})
+        FEATURES["shared-free_pattern-functions"] += nshare
+    # callbacks: the same method name and argument name in two classes, different signatures
+    if r.random() < 0.8:
+        sig = r.sample(["int (*cmp)(int a, int b)", "bool (*cmp)(double value)", "void (*cmp)(int *p)", "double (*cmp)(void)"], 2)
+        for j, sg in enumerate(sig):
+            decls.append({"decl": "class Holder%d" % j, "declarations": [{"decl": "void setCompare(%s)" % sg}]})
+        decls.append({"decl": "void applyFcn(int (*fcn)(int), int n)"})
+        FEATURES["same-named-callbacks"] += 1
     if r.random() < 0.6:
         FEATURES["class-with-baseclass"] += 1
         b = "Base%d" % r.randrange(9)
@@ -683,8 +732,11 @@ def gen_feature_lib(r, name, idx=0):
             FEATURES["struct-PY_struct_arg:" + pa] += 1
         decls.append(st)
     r.shuffle(decls) if r.random() < 0.3 else None
-    return {"library": name, "cxx_header": name + ".hpp", "language": "c++",
-            "options": {"wrap_python": r.random() < 0.6, "wrap_lua": r.random() < 0.4}, "declarations": decls}
+    doc = {"library": name, "cxx_header": name + ".hpp", "language": "c++",
+           "options": {"wrap_python": r.random() < 0.6, "wrap_lua": r.random() < 0.4}, "declarations": decls}
+    if patterns:
+        doc["patterns"] = patterns
+    return doc
 
 
 _MARK = re.compile(r"^\s*(?://|!) splicer begin (\S+)\s*$", re.M)
@@ -1140,7 +1192,8 @@ def run(ctx):
         ctx.cov["rule"] = ("translation validation: corpus (quick %d, thorough all) + generated + feature libraries (each also with user "
                            "splicers for harvested block names) x {single option on, all on, combinations, per-declaration debug/doxygen/"
                            "literalinclude on all / a third / a random mix of the declarations, option pairs on top-level and nested "
-                           "declarations, one option on the first/middle/last member of every overload set}; file sets compared for "
+                           "declarations, one option on every/first/last class, on the first/middle/last member of every overload set and of every group of "
+                           "same-named functions in different scopes}; file sets compared for "
                            "all outputs except .json/.log; every C/C++/Fortran source pair that differs in bytes is judged by the Lean "
                            "checker; a (library, variant) is non-trivial when at least one source file differs in bytes from the "
                            "all-off base; lexer correspondence: exhaustive strings up to length %d over two 9-16 symbol alphabets per "
